@@ -8,7 +8,14 @@ unset GOSUMDB GOTOOLCHAIN
 W=$(mktemp -d "${TMPDIR:-/tmp}/vcheck.XXXXXX") || exit 2
 trap '[ -n "$VCHECK_KEEP" ] || rm -rf "$W"' EXIT
 (cd /repo && go build -o "$W/moq" .) || { echo "HARNESS ERROR: /repo does not build"; exit 2; }
-(cd /verif/mc && go build -o "$W/vcheck" ./cmd/vcheck) || { echo "HARNESS ERROR: checker does not build against /repo"; exit 2; }
+V=/verif
+if [ -n "$VERIF_SNAPSHOT" ]; then
+  # background mode (not used by the manifest): work from a private copy of the framework so
+  # that /verif can be edited meanwhile; evidence and replays land in the copy
+  mkdir -p "$W/snap" && cp -r /verif/mc /verif/rt /verif/e2 /verif/KNOWN_FINDINGS.json "$W/snap/" || exit 2
+  V="$W/snap"; export VCHECK_ROOT="$V"
+fi
+(cd "$V/mc" && go build -o "$W/vcheck" ./cmd/vcheck) || { echo "HARNESS ERROR: checker does not build against /repo"; exit 2; }
 mkdir -p "$W/work"
 if [ "$prop" = replay ]; then
   VCHECK_MOQ="$W/moq" VCHECK_WORK="$W/work" "$W/vcheck" replay "$2"
